@@ -46,7 +46,7 @@ def plan(tier, seed):
     q = tier == 'quick'
     n = 15
     specs = [{'shard': i, 'of': n, 'timeout': 600 if q else 7200, 'budget_s': 45 if q else 900} for i in range(n)]
-    specs.append({'shard': 0, 'of': 1, 'asan': True, 'flavour': 'asan', 'timeout': 600 if q else 7200, 'budget_s': 35 if q else 900})
+    specs.append({'shard': 0, 'of': 1, 'asan': True, 'flavour': 'asan', 'timeout': 600 if q else 7200, 'budget_s': 25 if q else 900})
     return specs
 
 # ------------------------------------------------------------------ CPU adapter around the code under test
@@ -185,8 +185,7 @@ def roms(is128):
         _ROMS[is128] = [harness.read_file(n) for n in names]
     return _ROMS[is128]
 
-def choose_config(rng, meta, tier):
-    mode = 'ref' if meta['flen_class'] != 'real' and rng.random() < 0.25 else 'sim'
+def choose_config(rng, meta, tier, mode):
     cfg = {
         'mode': mode,
         'cmio': mode == 'sim' and rng.random() < 0.4,
@@ -234,6 +233,7 @@ def make_recording(rng, st, meta, cfg):
     inputs = gen.input_fn(meta)
     ext, version = cfg['exts'][0]
     version = fix_version(st, ext, version)
+    cfg['exts'][0] = (ext, version)
     snap = build_snapshot(st, ext, version, cfg['compress_file'])
     parsed = parse_snapshot(snap, ext)
     t0 = st['tstates']
@@ -261,6 +261,7 @@ def make_recording(rng, st, meta, cfg):
             e2, v2 = cfg['exts'][j]
             cur = state_of(rec.cpu, rec.ports, machine)
             v2 = fix_version(cur, e2, v2)
+            cfg['exts'][j] = (e2, v2)
             snap2 = build_snapshot(cur, e2, v2, cfg['compress_file'])
             parsed2 = parse_snapshot(snap2, e2)
             tnow = int(rec.cpu.regs[25])
@@ -282,7 +283,7 @@ def make_recording(rng, st, meta, cfg):
     R.need_bit0 = rec.need_bit0
     R.need_bit1 = rzxrec.need_bit1(blocks, cfg['ei'])
     R.data = rzxrec.build_rzx(blocks, cfg['compress_snap'], cfg['compress_irb'], cfg['repeat'])
-    R.bit_hl = False
+    R.repeats = [rzxrec.count_repeats([(f.fetch, f.ins) for f in b.frames], cfg['repeat']) for b in blocks]
     return R
 
 # ------------------------------------------------------------------ tools
@@ -404,13 +405,29 @@ def classify(R):
         return 'C20-boundary-opcode-reread'
     return None
 
+def witness_reread(rng):
+    """Directed case for the mechanism 'C20-boundary-opcode-reread': the last instruction of a frame, LD (0x8000),A at 0x8000
+    with A=0x76 and interrupts enabled, overwrites its own first byte with the HALT opcode. The CPU is not halted, so the
+    interrupt at the frame boundary must push 0x8003."""
+    st, meta = gen.gen_case(rng, allow_real=False)
+    ram = bytearray(49152)
+    code = [0x32, 0x00, 0x80, 0x00, 0x00, 0x00, 0x18, 0xFE]
+    ram[0x4000:0x4000 + len(code)] = bytes(code)
+    st.update(machine='48K', ram=bytes(ram), a=0x76, pc=0x8000, sp=0xAF00, iff1=1, iff2=1, im=1, tstates=0, out7ffd=0)
+    meta.update(kind='witness', is128=False, org=0x8000, flen=4, jitter=0, frames=3, flen_class='tiny', inputs='const')
+    cfg = choose_config(rng, meta, 'quick', 'sim')
+    cfg.update(cmio=False, layout='single', sizes=[3], exts=[('szx', 3)], ldair=False, ei=False, dump_ext='szx')
+    return st, meta, cfg
+
 def run_case(shard, case, asan=False, verbose=False):
     rng = shard.rng('case', case)
     tier = shard.tier
-    st, meta = gen.gen_case(rng, allow_real=True)
-    cfg = choose_config(rng, meta, tier)
-    if asan:
-        cfg['mode'], cfg['cmio'] = 'sim', rng.random() < 0.5
+    if case == 'witness-reread':
+        st, meta, cfg = witness_reread(rng)
+    else:
+        mode = 'ref' if not asan and rng.random() < 0.2 else 'sim'
+        st, meta = gen.gen_case(rng, allow_real=mode == 'sim', ref_friendly=mode == 'ref')
+        cfg = choose_config(rng, meta, tier, mode)
     R = make_recording(rng, st, meta, cfg)
     is128, cmio, refmode = meta['is128'], cfg['cmio'], cfg['mode'] == 'ref'
     rec = R.rec
@@ -428,13 +445,21 @@ def run_case(shard, case, asan=False, verbose=False):
         if rec.stats[k]:
             shard.inc('recorded:' + k, rec.stats[k])
     shard.inc('recorded:frames', len(R.frames))
+    nrep = sum(r[0] for r in R.repeats)
+    if nrep:
+        shard.inc('recorded:repeat_markers_with_readings', nrep)
+        shard.inc('recorded:recordings_with_repeated_frames')
+    if sum(r[1] for r in R.repeats):
+        shard.inc('recorded:repeat_markers_without_readings', sum(r[1] for r in R.repeats))
     shard.inc('recorded:recordings')
     # ---- outside what the convention defines
     if rec.ambiguous:
         shard.skip(rec.ambiguous[0])
         return
-    if refmode and rec.pushed_af:
-        shard.skip('refz80-driven recording executed PUSH AF (bits 5/3 of F could reach memory)')
+    if refmode and (rec.pushed_af or rec.taint):
+        # refz80 and the simulators differ by design in flags that C05 excludes: bits 5/3 of F (which PUSH AF would carry into
+        # memory) and the flags of BIT n,(HL) / of a repeating block instruction between its iterations
+        shard.skip('refz80-driven recording executed PUSH AF, BIT n,(HL) or a repeating block instruction (flags outside C05)')
         return
     if is128 and R.paged != rec.ports.page.value:
         # the paging model and the simulator's memory disagree: that is C08's subject, not this property's
@@ -480,7 +505,7 @@ def run_case(shard, case, asan=False, verbose=False):
             continue
         finals[python] = got
         d = compare(R.final, got, is128, cmio, dump_ext, refmode)
-        shard.case((digest, 'full', flags, python), nontrivial, sample=info if case < 2 and not python else None)
+        shard.case((digest, 'full', flags, python), nontrivial, sample=info if case in (0, 1) and not python else None)
         if d:
             fail('%s playback (flags %d%s) does not end in the recorder\'s state: %s' % ('Python' if python else 'C', flags, ', --cmio' if cmio else '', d[:6]))
     if False in finals and True in finals:
@@ -537,7 +562,7 @@ def run_case(shard, case, asan=False, verbose=False):
                 break
             continue
         got = load_final(fin)
-        d = compare(ref_final, got, is128, cmio, dump_ext, False, with_outfe=not z80_embedded)
+        d = compare(ref_final, got, is128, cmio and not z80_embedded, dump_ext, False, with_outfe=not z80_embedded)
         if d and memptr_lossy and bit_hl_executed(R, st, meta, cfg):
             shard.skip('--cmio + z80 snapshot: MEMPTR is not carried and the program executes BIT n,(HL)')
             d = []
@@ -573,15 +598,18 @@ def bit_hl_executed(R, st, meta, cfg):
 def run(shard, spec):
     quick = shard.tier == 'quick'
     if spec.get('asan'):
-        n = 12 if quick else 300
+        n = 8 if quick else 300
         for case in range(n):
             run_case(shard, 'asan%d' % case, asan=True)
             if shard.out_of_time():
                 shard.inc('stopped_on_budget')
                 break
         return
-    total = 75 if quick else 3000
-    for case in range(spec['shard'], total, spec['of']):
+    total = 150 if quick else 4000
+    cases = list(range(spec['shard'], total, spec['of']))
+    if spec['shard'] == 0:
+        cases.insert(0, 'witness-reread')
+    for case in cases:
         run_case(shard, case)
         if shard.out_of_time():
             shard.inc('stopped_on_budget')
@@ -592,7 +620,7 @@ def finalize(agg, tier):
     probs = []
     for k, n in (('monitor:full_plays', 20), ('monitor:c_vs_python', 10), ('monitor:stop_points', 100), ('monitor:rzxinfo_listings', 100),
                  ('monitor:alt_flag_plays', 5), ('recorded:halt', 5), ('recorded:ei', 5), ('recorded:ldair', 3), ('recorded:prefix', 3),
-                 ('recorded:accepted', 50), ('recorded:ins', 100), ('observed:stop_at_special_boundary', 50)):
+                 ('recorded:accepted', 50), ('recorded:ins', 100), ('recorded:recordings_with_repeated_frames', 3), ('observed:stop_at_special_boundary', 50)):
         if c.get(k, 0) < n:
             probs.append('%s = %d (< %d): the workload did not reach what the check decides on' % (k, c.get(k, 0), n))
     return probs
